@@ -187,7 +187,9 @@ func choicesOf(ps []vsync.PointRec) []int {
 // ---------------------------------------------------------------------------
 // C13: concurrent Add calls on one builder
 
+// Only (when non-nil in an argument) replays exactly one schedule instead of exploring.
 type SchedBuildArg struct {
+	Only    *[]int    `json:"only,omitempty"`
 	World   World     `json:"world"`
 	Adds    []AddCall `json:"adds"` // one per thread
 	Bound   int       `json:"bound"`
@@ -289,6 +291,19 @@ func schedBuildHandler(raw json.RawMessage) (any, error) {
 		}
 		return res, viol, obs
 	}
+	if arg.Only != nil {
+		res, viol, obs := run(*arg.Only)
+		st.Executions = 1
+		st.Points = len(res.Points)
+		st.Outcomes = []string{obs}
+		if res.Deadlock {
+			viol = "DEADLOCK " + viol
+		}
+		if viol != "" {
+			st.Violations = []string{viol}
+		}
+		return st, nil
+	}
 	// determinism: the default schedule twice
 	r1, _, o1 := run(nil)
 	r2, _, o2 := run(nil)
@@ -309,6 +324,7 @@ func schedBuildHandler(raw json.RawMessage) (any, error) {
 // C16: concurrent Pack calls
 
 type SchedPackArg struct {
+	Only     *[]int     `json:"only,omitempty"`
 	Share    bool       `json:"share"`    // all threads use ONE *Packer (options of step 0)
 	Steps    []PackStep `json:"steps"`    // one per thread
 	Expected []string   `json:"expected"` // solo outputs (from fresh processes)
@@ -346,6 +362,19 @@ func schedPackHandler(raw json.RawMessage) (any, error) {
 			}
 		}
 		return res, viol, strings.Join(outs, "\n---\n")
+	}
+	if arg.Only != nil {
+		res, viol, obs := run(*arg.Only)
+		st.Executions = 1
+		st.Points = len(res.Points)
+		st.Outcomes = []string{obs}
+		if res.Deadlock {
+			viol = "DEADLOCK " + viol
+		}
+		if viol != "" {
+			st.Violations = []string{viol}
+		}
+		return st, nil
 	}
 	r1, _, o1 := run(nil)
 	r2, _, o2 := run(nil)
